@@ -217,12 +217,14 @@ class Branch(object):
     def merge(self, *source_branches, **kwargs):
         do_push = kwargs.pop('do_push', False)
         force_commit = kwargs.pop('force_commit', False)
+        ff_only = kwargs.pop('ff_only', False)
         self.checkout()
 
         branches = ' '.join(("'%s'" % s.name) for s in source_branches)
         try:
-            command = 'git merge --no-edit %s %s' % ('--no-ff' if force_commit
-                                                     else '', branches)
+            command = 'git merge --no-edit %s %s' % (
+                '--no-ff' if force_commit else
+                '--ff-only' if ff_only else '', branches)
             self.repo.cmd(command)  # May fail if conflict
         except CommandError as err:
             raise MergeFailedException(self.name, branches) from err
